@@ -164,7 +164,17 @@ package webp
 //@   requires img != nil
 //@   modifies *
 //@   abstract encodeLossless, encodeLossyWithAlpha
+//@   callsite encodeLossyWithAlpha: assert resolveAlphaQuality(arg1.AlphaQuality) == 100
 //@   ensures result1 == nil && !isLossless && len(alphaData) > 0 ==> len(result0) >= 8 + len(alphaData) && result0[0] == 'A' && result0[1] == 'L' && result0[2] == 'P' && result0[3] == 'H'
 //@   ensures result1 == nil && !isLossless && len(alphaData) > 0 && len(alphaData) < 0x40000000 ==> int(result0[4]) | int(result0[5])<<8 | int(result0[6])<<16 | int(result0[7])<<24 == len(alphaData)
 //@   ensures result1 == nil && !isLossless && len(alphaData) > 0 && len(alphaData) < 0x40000000 ==> forall k int :: 0 <= k && k < len(alphaData) ==> result0[8+k] == alphaData[k]
 //@   ensures result1 == nil && !isLossless && len(alphaData) > 0 && len(alphaData) < 0x40000000 ==> len(result0) == 8 + len(alphaData) + (len(alphaData) & 1) + len(bs)
+//
+// The single-frame shortcut of the animation encoder goes through Encode with
+// options that keep alpha unquantised as well.
+//@ func simpleEncodeForAnimation
+//@   property C18
+//@   requires img != nil
+//@   modifies *
+//@   abstract Encode
+//@   callsite Encode: assert arg2 != nil && resolveAlphaQuality(arg2.AlphaQuality) == 100 && arg2.Lossless == isLossless
